@@ -431,6 +431,21 @@ def generate(tier, seed):
                 p["cols"] = [f"orig_{c}" if c in std_in else c for c in cols]
                 p["col_mapper"] = ren
         yield "standardize", p, i < 12
+    # long, repetitive tables with missing cells (size- and cardinality-dependent paths)
+    for i in range(40 if thorough else 4):
+        cols = ["TRAV", "TRAJ", "TRBV", "TRBJ", "CDR3B", "MHCA", "count"]
+        n = rng.randint(34, 90)
+        few = {c: rng.sample(POOL[c], 3) for c in cols if c in POOL}
+        rows = []
+        for r in range(n):
+            row = []
+            for c in cols:
+                if c == "count":
+                    row.append(r)
+                else:
+                    row.append(None if rng.random() < 0.12 else rng.choice(few[c]))
+            rows.append(row)
+        yield "standardize", {"rows": rows, "cols": cols, "options": _opts(rng, full=i % 2 == 0), "index": [None, "string", "duplicated", "permuted"][i % 4]}, True
     # multimerge
     base = [{"name": "a", "cols": ["x"], "rows": [["k1", 1], ["k2", 2]]}, {"name": "b", "cols": ["y"], "rows": [["k2", 3], ["k3", 4]]}]
     yield "multimerge", {"tables": base, "on": "k"}, True                       # D11 class: named key, no suffixes
